@@ -562,6 +562,57 @@ pub fn probe_bucket<'b, 'tx>(
         }
     }
 
+    if cfg.scan {
+        // the iterator methods a library may override instead of inheriting them from `next()`:
+        // last, count, nth, fold-based consumers, size_hint (only its contract), on fresh cursors and
+        // on the filtering adaptors
+        stats.reads += 6;
+        let r = guarded(|| {
+            let last = b.cursor().last().map(|d| data_to_pair(&d));
+            let count = b.cursor().count();
+            let nth1 = b.cursor().nth(1).map(|d| data_to_pair(&d));
+            let mut c = b.cursor();
+            let first = c.next().map(|d| data_to_pair(&d));
+            let rest_last = c.last().map(|d| data_to_pair(&d));
+            let (lo, hi) = b.cursor().size_hint();
+            let kv_last = b.kv_pairs().last().map(|kv| (kv.key().to_vec(), kv.value().to_vec()));
+            let kv_count = b.kv_pairs().count();
+            let bk_count = b.buckets().count();
+            let bk_last = b.buckets().last().map(|(n, _)| n.name().to_vec());
+            let into_last = b.cursor().into_iter().last().map(|d| data_to_pair(&d));
+            (last, count, nth1, first, rest_last, lo, hi, kv_last, kv_count, bk_count, bk_last, into_last)
+        });
+        match r {
+            Ok((last, count, nth1, first, rest_last, lo, hi, kv_last, kv_count, bk_count, bk_last, into_last)) => {
+                let n = model_all.len();
+                if last != model_all.last().cloned() || into_last != model_all.last().cloned() {
+                    push("iter_last", format!("cursor().last() gives {:?}, the last entry is {:?}", last.as_ref().map(|p| show(&p.0)), model_all.last().map(|p| show(&p.0))));
+                }
+                if count != n {
+                    push("iter_count", format!("cursor().count() = {} for {} entries", count, n));
+                }
+                if nth1 != model_all.get(1).cloned() {
+                    push("iter_nth", format!("cursor().nth(1) gives {:?}, expected {:?}", nth1.as_ref().map(|p| show(&p.0)), model_all.get(1).map(|p| show(&p.0))));
+                }
+                if first != model_all.first().cloned() || rest_last != if n >= 2 { model_all.last().cloned() } else { None } {
+                    push("iter_last", format!("next() then last() give {:?} / {:?}", first.as_ref().map(|p| show(&p.0)), rest_last.as_ref().map(|p| show(&p.0))));
+                }
+                if lo > n || hi.map(|h| h < n).unwrap_or(false) {
+                    push("iter_size_hint", format!("size_hint() = ({}, {:?}) for {} entries", lo, hi, n));
+                }
+                let kvs: Vec<(Bytes, Bytes)> = model_all.iter().filter_map(|(k, v)| v.as_ref().map(|v| (k.clone(), v.clone()))).collect();
+                let bks: Vec<Bytes> = model_all.iter().filter(|(_, v)| v.is_none()).map(|(k, _)| k.clone()).collect();
+                if kv_last != kvs.last().cloned() || kv_count != kvs.len() {
+                    push("iter_last", format!("kv_pairs(): last {:?} count {}, expected last {:?} count {}", kv_last.as_ref().map(|p| show(&p.0)), kv_count, kvs.last().map(|p| show(&p.0)), kvs.len()));
+                }
+                if bk_last != bks.last().cloned() || bk_count != bks.len() {
+                    push("iter_last", format!("buckets(): last {:?} count {}, expected last {:?} count {}", bk_last.as_ref().map(|k| show(k)), bk_count, bks.last().map(|k| show(k)), bks.len()));
+                }
+            }
+            Err(p) => push("panic:iter_methods", p),
+        }
+    }
+
     if cfg.filters {
         stats.reads += 2;
         match guarded(|| b.buckets().map(|(n, sub)| (n.name().to_vec(), sub.next_int())).take(SCAN_CAP).collect::<Vec<_>>()) {
